@@ -83,6 +83,12 @@ pub struct Plan {
   pub cases_per_worker: u32,
 }
 
+impl Plan {
+  pub fn new(workers: usize, cases_per_worker: u32) -> Plan {
+    Plan { workers, cases_per_worker }
+  }
+}
+
 pub trait Property: 'static {
   type Case: Serialize + DeserializeOwned + Debug + Clone + Send + 'static;
   const ID: &'static str;
@@ -103,6 +109,10 @@ pub trait Property: 'static {
   fn sample(case: &Self::Case) -> Value {
     let v = serde_json::to_value(case).unwrap_or(Value::Null);
     truncate_value(v, 4000)
+  }
+  /// shrink budget (iterations); lower it for properties whose cases are expensive to run
+  fn shrink_iters() -> u32 {
+    2000
   }
   /// Set true when the thorough tier enumerates a finite space completely.
   fn exhaustive(_tier: Tier) -> bool {
@@ -427,7 +437,7 @@ pub fn run_property<P: Property>(tier: Tier) -> i32 {
           cases: cases_per_worker,
           failure_persistence: None,
           rng_seed: RngSeed::Fixed(wseed),
-          max_shrink_iters: 4000,
+          max_shrink_iters: P::shrink_iters(),
           max_global_rejects: 100_000,
           ..Config::default()
         };
